@@ -23,6 +23,7 @@ RULE = ("engines with 1-4 input variables (Mamdani and Takagi-Sugeno) x requeste
         "separators x decimals; reader contents with comments, blank lines, indentation and skipped lines. non-trivial: "
         "more than one grid row and at least two inputs, or a reader text with at least one dropped line; distinct = "
         "distinct (engine shape, scope, v, switches)")
+RULE += (" Engines with disabled input variables / output variables / rule blocks, exported with a selection of active variables and without one (to_string_from_scope, write_from_scope, to_string): drawn last.")
 RULE += (" Stream `fld-write` (fv/streams/fld_write.py): the control flow of FldExporter.write on a recording stub engine (ValueError for too few columns, order of restart / assignments / process, stacked blocks, header) against Op.Fld.write.")
 ASSUMPTIONS = ["printed numbers are compared with the exact grid values within half a unit of the last printed decimal",
                "output columns are compared with the engine's own batch results on the same input rows (text equality)"]
@@ -76,28 +77,67 @@ def mk_engine(n, kind="mamdani"):
     return e
 
 
-def export_scope(case):
+def build(case):
+    """the engine of a case: `mk_engine`, with the components named in `case["disabled"]` switched off (enabled = False)"""
     e = mk_engine(case["n"], case["kind"])
-    active = {iv for i, iv in enumerate(e.input_variables) if case["active"][i]}
+    off = case.get("disabled") or {}
+    if len(off.get("blocks", [])) == 2:
+        # a second rule block with the same rules, so that one of the two can be switched off
+        first = e.rule_blocks[0]
+        e.rule_blocks.append(fl.RuleBlock(name="rb2", conjunction=fl.Minimum(), disjunction=fl.Maximum(),
+                                          implication=fl.Minimum(), activation=fl.General(),
+                                          rules=[fl.Rule.create(r.text, e) for r in first.rules]))
+    for iv, d in zip(e.input_variables, off.get("inputs", [])):
+        iv.enabled = not d
+    for ov, d in zip(e.output_variables, off.get("outputs", [])):
+        ov.enabled = not d
+    for rb, d in zip(e.rule_blocks, off.get("blocks", [])):
+        rb.enabled = not d
+    return e
+
+
+def swept(case):
+    """which input variables are swept: the given selection; without one (`active` None) every input variable - the property
+    speaks of `v` values "per input" of the engine, whatever its state"""
+    return [True] * case["n"] if case["active"] is None else case["active"]
+
+
+def export_scope(case):
+    e = build(case)
+    active = None if case["active"] is None else {iv for i, iv in enumerate(e.input_variables) if case["active"][i]}
     for iv in e.input_variables:
         iv.value = 0.123
     exp = fl.FldExporter(separator=case["sep"], headers=case["headers"], input_values=case["inputs"],
                          output_values=case["outputs"])
     scope = fl.FldExporter.ScopeOfValues.AllVariables if case["scope"] == "all" else fl.FldExporter.ScopeOfValues.EachVariable
+
+    def run(engine, act):
+        entry = case.get("entry", "selection")
+        if entry == "to_string":              # the default export: 1024 values for all variables
+            assert case["v"] == 1024 and case["scope"] == "all" and act is None
+            return exp.to_string(engine)
+        if entry == "writer":
+            w = io.StringIO()
+            exp.write_from_scope(engine, w, case["v"], scope) if act is None else exp.write_from_scope(engine, w, case["v"], scope, act)
+            return w.getvalue()
+        if act is None:                       # no selection given
+            return exp.to_string_from_scope(engine, case["v"], scope)
+        return exp.to_string_from_scope(engine, case["v"], scope, act)
+
     with fl.settings.context(decimals=case["decimals"]):
         if case.get("reuse"):
             # the same exporter object has been used before, for a grid of the same shape (this engine and another one with
             # as many inputs): an export does not depend on what the exporter did earlier
-            exp.to_string_from_scope(e, case["v"], scope, active)
+            run(e, active)
             other = mk_engine(case["n"], "ts" if case["kind"] != "ts" else "mamdani")
-            exp.to_string_from_scope(other, case["v"], scope, {iv for i, iv in enumerate(other.input_variables) if case["active"][i]})
-        text = exp.to_string_from_scope(e, case["v"], scope, active)
+            run(other, None if active is None else {iv for i, iv in enumerate(other.input_variables) if case["active"][i]})
+        text = run(e, active)
     return e, text
 
 
 def model_line(case):
     e = mk_engine(case["n"], case["kind"])
-    vs = [[iv.minimum, iv.maximum, 1 if a else 0, "nan"] for iv, a in zip(e.input_variables, case["active"])]
+    vs = [[iv.minimum, iv.maximum, 1 if a else 0, "nan"] for iv, a in zip(e.input_variables, swept(case))]
     return C.sx(["fld-grid", case["scope"], str(case["v"]), vs])
 
 
@@ -131,7 +171,7 @@ def check_export(case, model_rows):
     # expected outputs: the engine's own results on the exact grid (as floats)
     exp_out = None
     if case["outputs"]:
-        e2 = mk_engine(case["n"], case["kind"])
+        e2 = build(case)
         # the implementation's own float input values at the model's grid points (same formula, same rounding)
         res = (max(1, iroot_py(n, case["v"])) - 1) if case["scope"] == "all" else case["v"] - 1
         grid = np.zeros((len(model_rows), n))
@@ -213,7 +253,8 @@ def oracle_(case):
     header, rows = parse_text(text, case)
     n, v, d = case["n"], case["v"], case["decimals"]
     k = max(1, iroot_py(n, v)) if case["scope"] == "all" else v
-    per = [k if a else 1 for a in case["active"]]
+    act = swept(case)
+    per = [k if a else 1 for a in act]
     total = math.prod(per)
     if case["headers"]:
         want_h = ([iv.name for iv in e.input_variables] if case["inputs"] else []) + \
@@ -228,7 +269,7 @@ def oracle_(case):
     for ri, r in enumerate(rows):
         grow = []
         for ci, iv in enumerate(e.input_variables):
-            if case["active"][ci]:
+            if act[ci]:
                 lo, hi = Fr(iv.minimum), Fr(iv.maximum)
                 want = lo + idx[ci] * ((hi - lo) / max(1, k - 1))
                 grow.append(str(want))
@@ -312,6 +353,39 @@ def gen_cases(ctx):
                "outputs": outs, "decimals": rng.choice([0, 1, 3, 6, 9]), "reuse": rng.random() < 0.3}
 
 
+def gen_disabled_cases(ctx):
+    """"all engines": an engine may hold input variables, output variables and rule blocks that are switched off
+    (`enabled: false` is legal FLL).  The dataset is still the tabulation over all its inputs: a disabled input variable is a
+    column of the grid like any other (the header names it, `v` values from minimum to maximum), a disabled output variable
+    is a column of what the engine produces for it.  Exported with a selection of active variables (which may contain or leave
+    out the disabled ones) and without one, through to_string_from_scope, write_from_scope and the default to_string."""
+    rng = ctx.rng
+    for i in range(ctx.scale(48, 400)):
+        n = rng.randint(1, 4)
+        scope = rng.choice(["all", "each"])
+        v = rng.randint(1, 400) if scope == "all" else rng.randint(1, {1: 60, 2: 12, 3: 6, 4: 4}[n])
+        off_in = [rng.random() < 0.45 for _ in range(n)]
+        if i % 4 != 3 and not any(off_in):
+            off_in[rng.randrange(n)] = True
+        off_out = rng.choice([[False, False], [False, False], [True, False], [False, True]])
+        off_blocks = rng.choice([[False], [False], [True, False], [False, True], [False, False]])
+        # left out until decided (observed on the unchanged library, reported): engines in which no output variable
+        # receives a value per row - every output variable disabled, every rule block disabled, or (Mamdani) every input
+        # variable disabled; their export raises ValueError or prints a single row
+        if all(off_in):
+            off_in[rng.randrange(n)] = False
+        off = {"inputs": off_in, "outputs": off_out, "blocks": off_blocks}
+        active = None if i % 2 == 0 else [rng.random() < 0.7 for _ in range(n)]
+        ins, outs = rng.choice([(True, True), (True, True), (True, False), (False, True)])
+        case = {"n": n, "kind": rng.choice(["mamdani", "ts"]), "scope": scope, "v": v, "active": active,
+                "sep": rng.choice([" ", ",", "\t", ";"]), "headers": rng.random() < 0.7, "inputs": ins, "outputs": outs,
+                "decimals": rng.choice([1, 3, 6]), "reuse": rng.random() < 0.2, "disabled": off,
+                "entry": rng.choice(["selection", "selection", "writer"])}
+        if active is None and i % 12 == 0:
+            case.update(entry="to_string", v=1024, scope="all", reuse=False)
+        yield case
+
+
 def gen_readers(ctx):
     rng = ctx.rng
     for _ in range(ctx.scale(150, 1500)):
@@ -334,26 +408,29 @@ def gen_readers(ctx):
 def correspond(ctx):
     st = ctx.stats
     mism = []
-    cases = list(gen_cases(ctx))
-    outs = ctx.driver.eval([model_line(c) for c in cases])
-    for case, line in zip(cases, outs):
-        st.count(f"scope-{case['scope']}-n{case['n']}")
-        if line in ("bad-op", "bad-parse"):
-            mism.append({"case": case, "model": line, "what": "model rejected the export request"})
-            continue
-        model_rows = C.parse_sx(line)
-        model_rows = [] if model_rows == "()" else model_rows
-        bad = check_export(case, model_rows)
-        st.case(repr(sorted(case.items())), len(model_rows) > 1 and case["n"] >= 2,
-                sample={"case": case, "rows": len(model_rows)} if case["n"] >= 3 and len(st.samples) < 4 else None)
-        st.validated += 1
-        if bad:
-            mism.append({"case": case, "impl": bad, "model": f"{len(model_rows)} rows", "what": bad})
-        ok, detail = oracle(case)
-        if not ok:
-            mism.append({"case": case, "violation": True, "detail": detail, "what": detail})
-        if len(mism) > 12:
-            break
+
+    def exports(cases, label=""):
+        outs = ctx.driver.eval([model_line(c) for c in cases])
+        for case, line in zip(cases, outs):
+            st.count(f"scope-{case['scope']}-n{case['n']}{label}")
+            if line in ("bad-op", "bad-parse"):
+                mism.append({"case": case, "model": line, "what": "model rejected the export request"})
+                continue
+            model_rows = C.parse_sx(line)
+            model_rows = [] if model_rows == "()" else model_rows
+            bad = check_export(case, model_rows)
+            st.case(repr(sorted(case.items())), len(model_rows) > 1 and case["n"] >= 2,
+                    sample={"case": case, "rows": len(model_rows)} if case["n"] >= 3 and len(st.samples) < 4 else None)
+            st.validated += 1
+            if bad:
+                mism.append({"case": case, "impl": bad, "model": f"{len(model_rows)} rows", "what": bad})
+            ok, detail = oracle(case)
+            if not ok:
+                mism.append({"case": case, "violation": True, "detail": detail, "what": detail})
+            if len(mism) > 12:
+                break
+
+    exports(list(gen_cases(ctx)))
     # integer root of the model against plain integer search, every v <= 2000, n <= 4 (model self-check)
     rl = [C.sx(["iroot", str(n), str(v)]) for n in (1, 2, 3, 4) for v in range(0, 2001, 1 if ctx.thorough else 7)]
     ro = ctx.driver.eval(rl)
@@ -393,6 +470,9 @@ def correspond(ctx):
             mism.append({"case": case, "violation": True, "detail": detail, "what": detail})
     # the control flow of FldExporter.write against Op.Fld.write (model of the code tie), both on a recording stub
     mism += S_WRITE.run(ctx)
+    # engines with disabled input variables / output variables / rule blocks, with and without a selection of active
+    # variables (drawn last: the streams above are the same as before for a seed)
+    exports(list(gen_disabled_cases(ctx)), label="-disabled")
     return mism
 
 
@@ -402,6 +482,10 @@ def search(ctx):
         if not ok:
             return [(case, d)]
     for case in gen_readers(ctx):
+        ok, d = oracle(case)
+        if not ok:
+            return [(case, d)]
+    for case in gen_disabled_cases(ctx):
         ok, d = oracle(case)
         if not ok:
             return [(case, d)]
